@@ -69,13 +69,13 @@ Qed.
 
 (* the first permanent error (before Shutdown) ends Serve with that error, whatever preceded it *)
 Lemma perm_returns_error k rest delay n :
-  snd (accept_loop (temps k ++ APerm false :: rest) delay n) = RErr.
+  snd (accept_loop (temps k ++ APerm false :: rest) delay n) = ARErr.
 Proof. rewrite temps_survived. reflexivity. Qed.
 
 (* once Shutdown has been signalled every Accept error - temporary or permanent - and every late
    connection ends Serve with nil *)
 Lemma done_returns_nil r rest delay n :
-  (r = ATemp true \/ r = APerm true \/ r = AConn true) -> snd (accept_loop (r :: rest) delay n) = RNil.
+  (r = ATemp true \/ r = APerm true \/ r = AConn true) -> snd (accept_loop (r :: rest) delay n) = ARNil.
 Proof. intros [->|[->| ->]]; reflexivity. Qed.
 
 Lemma late_conn_closed rest delay n : fst (accept_loop (AConn true :: rest) delay n) = [CloseLate n].
@@ -84,10 +84,10 @@ Proof. reflexivity. Qed.
 (* general result classification *)
 Lemma result_classification rs : forall delay n,
   match snd (accept_loop rs delay n) with
-  | RErr => exists pre rest, rs = pre ++ APerm false :: rest /\ Forall (fun r => r = ATemp false \/ r = AConn false) pre
-  | RNil => exists pre r rest, rs = pre ++ r :: rest /\ Forall (fun r => r = ATemp false \/ r = AConn false) pre /\
+  | ARErr => exists pre rest, rs = pre ++ APerm false :: rest /\ Forall (fun r => r = ATemp false \/ r = AConn false) pre
+  | ARNil => exists pre r rest, rs = pre ++ r :: rest /\ Forall (fun r => r = ATemp false \/ r = AConn false) pre /\
                                (r = ATemp true \/ r = APerm true \/ r = AConn true)
-  | RRunning => Forall (fun r => r = ATemp false \/ r = AConn false) rs
+  | ARRunning => Forall (fun r => r = ATemp false \/ r = AConn false) rs
   end.
 Proof.
   induction rs as [|[done|done|done] r IH]; intros delay n; cbn [accept_loop].
